@@ -57,6 +57,47 @@ struct Rng {
     T const& pick(T const (&a)[N]) { return a[below(N)]; }
 };
 
+// ---------------------------------------------------------------- chooser
+// Enumerate-by-re-running: an operation draws its arguments with pick(n); in
+// enumeration mode the chooser is an odometer over all choice sequences
+// (do { c.begin(); op(c); } while (c.next());), in random mode it draws from rng.
+struct Chooser {
+    std::vector<unsigned> choice, limit;
+    std::size_t idx = 0;
+    Rng* rng        = nullptr;
+    explicit Chooser(Rng* r = nullptr) : rng(r) { }
+    bool random() const { return rng != nullptr; }
+    void begin() { idx = 0; }
+    unsigned pick(unsigned n)
+    {
+        if (n <= 1) { return 0; }
+        if (rng) { return (unsigned)rng->below(n); }
+        if (idx == choice.size()) {
+            choice.push_back(0);
+            limit.push_back(n);
+        }
+        return choice[idx++];
+    }
+    // pick an index out of n, but in random mode with an explicit draw
+    bool flag() { return pick(2) == 1; }
+    bool next()
+    {
+        if (rng) { return false; }
+        while (!choice.empty()) {
+            if (++choice.back() < limit.back()) { return true; }
+            choice.pop_back();
+            limit.pop_back();
+        }
+        return false;
+    }
+    std::uint64_t hash() const
+    {
+        std::uint64_t h = 0x1234;
+        for (unsigned c : choice) { h = mix(h, c); }
+        return h;
+    }
+};
+
 // ---------------------------------------------------------------- shared page
 constexpr int kKeys    = 2048;
 constexpr int kKeyLen  = 240;
